@@ -205,6 +205,50 @@ def run(ctx):
         rep.check(fld in compared, "C16.R5", "provenance-coordinate:%s-compared" % fld, "the reference's %s is compared during the optic read" % fld,
                   "CoordinateAt::Provenance(reference): reference.%s is never compared in the optic read tree — a reference naming a commit this history does not contain is answered "
                   "with a reading of the commit that happens to sit at that tick" % fld, site=oi.loc())
+    # live state is consulted only for a FRONTIER read: in basis_posture every path to a live read (the strand's live basis report,
+    # the frontier tick) takes the `Frontier` edge of a match on the requested coordinate kind
+    bp = prog.fn(OB + "ObservationService::basis_posture")
+    LIVE = r"::live_basis_report$|::frontier_tick$|WorldlineRuntime::global_tick$"
+    live_sites = bp.call_sites(LIVE)
+    # a live read inside a closure happens where the closure is handed over
+    for bi, si, place, rv, line in bp.assigns():
+        if rv["r"] == "agg" and rv.get("ak") == "closure" and rv["adt"] in prog.fns:
+            if any(prog.fns[c].call_sites(LIVE) for c in [rv["adt"]] + prog.closures_in(rv["adt"])):
+                live_sites.append(bi)
+    fr_edges = []
+    if len(OAT) == 1:
+        for (bb, arms, ow, _u) in enum_switches(bp, OAT[0]):
+            tgt = arms.get("Frontier")
+            if tgt is None and ow is not None and "Tick" in arms:
+                tgt = ow
+            if tgt is not None:
+                fr_edges.append((bb, tgt))
+    # `matches!(at, Frontier)` materialises the arm as a bool: its true edge is a Frontier edge too
+    for (bb, tgt) in list(fr_edges):
+        for st_ in bp.blocks[tgt]["st"]:
+            if st_[0] == "a" and not st_[1][1] and st_[2]["r"] == "use" and "k" in st_[2]["o"] and "true" in str(st_[2]["o"]["k"]) and bp.locals[st_[1][0]] == "bool":
+                # only when every other definition of that bool is the constant false (a pure `matches!`): a bool that can also be
+                # true for another reason (a comparison in the Tick arm) does not stand for "the Frontier arm was taken"
+                others = [d for d in bp.defs().get(st_[1][0], ()) if not (d[0] == "assign" and d[1] == tgt)]
+                if all(d[0] == "assign" and d[4]["r"] == "use" and "k" in d[4]["o"] and "false" in str(d[4]["o"]["k"]) for d in others):
+                    for sw in switch_edges_on_local(bp, st_[1][0]):
+                        fr_edges.append((sw["sw"], sw["true"]))
+    w_ = bp.path([0], live_sites, avoid_edges=set(fr_edges)) if live_sites else None
+    rep.check(bool(live_sites) and bool(fr_edges) and w_ is None, "C16.R5", "basis-posture:live-reads-only-for-frontier", "%d live read(s), all behind the Frontier arm" % len(live_sites),
+              "basis_posture consults live state (%s) on a path that does not take the Frontier arm: the posture of an explicit-tick reading then changes with later commits" % (
+                  bp.describe_path(w_) if w_ else "no Frontier arm / no live read found"), site=bp.loc())
+    # a provenance lookup is never downgraded to "absent": `.ok()` / `unwrap_or*` on the entry lookup turns unavailable history
+    # into an ordinary value (a reading with no commit stamp) instead of a typed obstruction
+    swallow = []
+    for g in fns_rc0:
+        og_ = g.origins()
+        for bi, t in g.calls():
+            c_ = g.callee_of(t) or ""
+            if re.search(r"result::Result(::)?<.*>::(ok|unwrap_or|unwrap_or_default|unwrap_or_else|is_ok|is_err)$", c_) and t["args"]:
+                if any(a.kind == "call" and re.search(r"::entry$|::tip_ref$|::len$", a.key[0]) and "rovenance" in a.key[0] for a in og_.of_operand(t["args"][0], deep=False)):
+                    swallow.append((g.name, g.block_line(bi), c_.rsplit("::", 1)[-1]))
+    rep.check(not swallow, "C16.R6", "resolve:provenance-lookup-never-swallowed", "no provenance lookup result is turned into an Option / default in coordinate resolution",
+              "resolve_coordinate swallows a provenance lookup error (%s): history that is not retained is answered with a reading instead of ObservationUnavailable" % swallow[:2], site=rc.loc())
     # ---- R6
     fns_rc = [rc] + [prog.fns[c] for c in prog.closures_in(rc.id)]
     live = constructed_variants(fns_rc, OB + "ObservationError")
@@ -212,7 +256,8 @@ def run(ctx):
         rep.check(v in live, "C16.R6", "obstruction:%s" % v, "typed obstruction constructed", "resolve_coordinate no longer yields ObservationError::%s" % v, site=rc.loc())
     for bb in rc.call_sites(r"ProvenanceService::entry$|::entry$"):
         okk, why = result_inspected(rc, bb)
-        rep.check(okk, "C16.R6", "provenance-lookup-propagated@%s" % rc.block_line(bb), why, "provenance lookup error dropped", site=rc.loc())
+        n_lookup = locals().get("n_lookup", 0) + 1
+        rep.check(okk, "C16.R6", "provenance-lookup-propagated#%d" % n_lookup, why, "provenance lookup error dropped", site=rc.loc())
     ob_tree, _ = tree(prog, [entries[0]])
     live_all = constructed_variants(ob_tree, OB + "ObservationError")
     base = baseline("C16.observe.ObservationError", sorted(live_all))
